@@ -299,7 +299,7 @@ def check_forwarding(c, repo):
     kn0 = g.node_for(k)
     for ign in (True, False):
         for dims_given in (True, False):
-            outs = dict_contents_at(g, kn0, kv, {'self.ignore_sighup': ign, 'dimensions is None': not dims_given})
+            outs = dict_contents_at(g, kn0, kv, {'self.ignore_sighup': ign, 'dimensions is None': not dims_given}, fi=sp)
             c.need(outs is not None and len(outs) >= 1, '_spawn: the contents of **%s could not be determined' % kv)
             want = {'echo': 'self.echo', 'preexec_fn': 'preexec_wrapper' if ign else 'preexec_fn'}
             if dims_given:
